@@ -115,6 +115,11 @@ fn body_one_token_blank_and_missing_label() {
         }
         Err(_) => assert!(false),
     }
+    // no line at all: an empty label sequence, not an error
+    let none: [SLine; 0] = [];
+    let r0 = SLabels::load_from_strings(48000, 240, &none);
+    match &r0 { Ok(l) => assert!(l.labels.is_empty() && l.times.is_empty()), Err(_) => assert!(false) }
+    std::mem::forget(r0);
     let lines2 = [SLine(SStr::line(vec![lab(3)])), SLine(SStr::line(vec![num(0.0), num(5.0)]))];
     let r2 = SLabels::load_from_strings(48000, 240, &lines2);
     assert!(matches!(r2, Err(LabelError::MissingLabel(_))));
